@@ -27,7 +27,7 @@ NormME(m, e) ==
 
 IntLimit == 1073741823                       \* 2^30 - 1
 
-(* token of the finite value m * 2^e *)
+(* token of the finite value m * 2^e (a zero is +0) *)
 Tok(x) ==
     LET n == NormME(x.m, x.e)
     IN IF n.e >= 0 /\ n.e <= 29 /\ Abs(n.m) <= IntLimit \div (2 ^ n.e)
@@ -38,13 +38,26 @@ Inf(s) == <<"inf", s>>
 NaN == <<"nan">>
 Undef == <<"undef">>
 
-IsFinite(t) == t[1] \in {"n", "q"}
+IsFinite(t) == t[1] \in {"n", "q", "nz"}
 (* arguments small enough for exact 32-bit integer arithmetic in TLC *)
 SmallNum(t) == CASE t[1] = "n" -> (t[2] >= -1048576 /\ t[2] <= 1048576)
                  [] t[1] = "q" -> (t[2] >= -16384 /\ t[2] <= 16384 /\ t[3] >= -7 /\ t[3] <= 7)
                  [] OTHER -> TRUE
-IsNum(t) == t[1] \in {"n", "q", "inf", "nan"}
-D(t) == IF t[1] = "n" THEN [m |-> t[2], e |-> 0] ELSE [m |-> t[2], e |-> t[3]]
+IsNum(t) == t[1] \in {"n", "q", "nz", "inf", "nan"}
+D(t) == IF t[1] = "n" THEN [m |-> t[2], e |-> 0]
+        ELSE IF t[1] = "nz" THEN [m |-> 0, e |-> 0]
+        ELSE [m |-> t[2], e |-> t[3]]
+(* signed zero: <<"n", 0>> is +0, <<"nz">> is -0 (observable through 1/x and *)
+(* the sign bit); every operator below states the sign of a zero result      *)
+NegZero == <<"nz">>
+PosZero == <<"n", 0>>
+ZeroTok(neg) == IF neg THEN NegZero ELSE PosZero
+IsZeroTok(t) == t = PosZero \/ t = NegZero
+SignNeg(t) == CASE t[1] = "nz" -> TRUE                      \* the sign bit (no NaN)
+                [] t[1] = "inf" -> t[2] = -1
+                [] OTHER -> D(t).m < 0
+(* token of the finite value x, a zero taking the given sign *)
+TokS(x, negIfZero) == IF x.m = 0 THEN ZeroTok(negIfZero) ELSE Tok(x)
 
 (* both values as integers over the common exponent *)
 E0(a, b) == IF a.e <= b.e THEN a.e ELSE b.e
@@ -103,8 +116,9 @@ DSqrt(a) ==
 (* return Def(results) or Undef, both tagged in position 1.                *)
 Def(ts) == <<"ok", ts>>
 
-MFloor(t) == IF IsFinite(t) THEN <<Tok(DFloor(D(t)))>> ELSE <<t>>
-MCeil(t) == IF IsFinite(t) THEN <<Tok(DCeil(D(t)))>> ELSE <<t>>
+(* floor gives -0 only for -0; ceil gives -0 for every x in (-1, 0] with the sign bit *)
+MFloor(t) == IF IsFinite(t) THEN <<TokS(DFloor(D(t)), t = NegZero)>> ELSE <<t>>
+MCeil(t) == IF IsFinite(t) THEN <<TokS(DCeil(D(t)), SignNeg(t))>> ELSE <<t>>
 MAbs(t) == CASE IsFinite(t) -> <<Tok([m |-> Abs(D(t).m), e |-> D(t).e])>>
              [] t[1] = "inf" -> <<Inf(1)>>
              [] OTHER -> <<t>>
@@ -112,8 +126,8 @@ MAbs(t) == CASE IsFinite(t) -> <<Tok([m |-> Abs(D(t).m), e |-> D(t).e])>>
 (* modf: integral part (truncation) and fraction, both with the sign of x; *)
 (* modf(+-inf) = +-inf, +-0                                                *)
 MModf(t) ==
-    CASE IsFinite(t) -> <<Tok(DTrunc(D(t))), Tok(DSub(D(t), DTrunc(D(t))))>>
-      [] t[1] = "inf" -> <<t, <<"n", 0>>>>
+    CASE IsFinite(t) -> <<TokS(DTrunc(D(t)), SignNeg(t)), TokS(DSub(D(t), DTrunc(D(t))), SignNeg(t))>>
+      [] t[1] = "inf" -> <<t, ZeroTok(SignNeg(t))>>
       [] OTHER -> <<NaN, NaN>>
 
 (* frexp: x = f * 2^ex with 0.5 <= |f| < 1, frexp(0) = 0, 0 *)
@@ -121,7 +135,7 @@ MFrexp(t) ==
     IF ~IsFinite(t) THEN Undef                     \* exponent unspecified by ISO C
     ELSE LET n == NormME(D(t).m, D(t).e)
              b == BitLen(Abs(n.m))
-         IN IF n.m = 0 THEN Def(<<<<"n", 0>>, <<"n", 0>>>>)
+         IN IF n.m = 0 THEN Def(<<t, <<"n", 0>>>>)                 \* frexp(+-0) = +-0, 0
             ELSE Def(<<Tok([m |-> n.m, e |-> -b]), <<"n", n.e + b>>>>)
 
 (* the double nearest to m * 2^e (round half even): overflow gives an       *)
@@ -141,26 +155,30 @@ Round64(x) ==
                      r == mag % den
                      up == 2 * r > den \/ (2 * r = den /\ q % 2 = 1)
                  IN Tok([m |-> Sgn(n.m) * (IF up THEN q + 1 ELSE q), e |-> -1074])
-Representable(t) == ~IsFinite(t) \/ Round64(D(t)) = t
+Representable(t) == ~IsFinite(t) \/ t = NegZero \/ Round64(D(t)) = t
 (* arguments of ldexp / frexp: any exponent a double can have *)
 WideNum(t) == CASE t[1] = "n" -> (t[2] >= -1048576 /\ t[2] <= 1048576)
                 [] t[1] = "q" -> (t[2] >= -1048576 /\ t[2] <= 1048576 /\ t[3] >= -2400 /\ t[3] <= 2400)
                 [] OTHER -> TRUE
 
 (* ldexp(x, k) = x * 2^k as a double *)
-MLdexp(t, k) == IF IsFinite(t) THEN <<Round64([m |-> D(t).m, e |-> D(t).e + k])>> ELSE <<t>>
+MLdexp(t, k) ==
+    IF ~IsFinite(t) THEN <<t>>
+    ELSE LET r == Round64([m |-> D(t).m, e |-> D(t).e + k])
+         IN IF r = PosZero THEN <<ZeroTok(SignNeg(t))>> ELSE <<r>>  \* a zero / underflow keeps the sign of x
 
 MFmod(s, t) ==
     CASE s[1] = "nan" \/ t[1] = "nan" -> <<NaN>>
       [] s[1] = "inf" -> <<NaN>>
       [] t[1] = "inf" -> <<s>>
       [] D(t).m = 0 -> <<NaN>>
-      [] OTHER -> <<Tok(DFmod(D(s), D(t)))>>
+      [] OTHER -> <<TokS(DFmod(D(s), D(t)), SignNeg(s))>>          \* a zero result has the sign of the dividend
 
 MSqrt(t) ==
     CASE t[1] = "nan" -> Def(<<NaN>>)
       [] t[1] = "inf" -> (IF t[2] = 1 THEN Def(<<t>>) ELSE Def(<<NaN>>))
       [] D(t).m < 0 -> Def(<<NaN>>)
+      [] t = NegZero -> Def(<<NegZero>>)                               \* sqrt(-0) = -0
       [] OTHER -> (LET r == DSqrt(D(t)) IN IF r = <<>> THEN Undef ELSE Def(<<Tok(r[1])>>))
 
 (* pow for finite x and an exponent that is an integer or an odd multiple  *)
@@ -169,7 +187,7 @@ MSqrt(t) ==
 PowBound == 12
 PowFits(m, k) == BitLen(Abs(m)) * k <= 30                   \* m^k stays a TLC integer
 
-MPow(s, t) ==
+MPowFin(s, t) ==
     IF ~IsFinite(s) \/ ~IsFinite(t) THEN Undef
     ELSE LET x == NormME(D(s).m, D(s).e)
              y == NormME(D(t).m, D(t).e)
@@ -192,6 +210,66 @@ MPow(s, t) ==
                        ELSE IF r[1].m = 1 THEN Def(<<Tok([m |-> 1, e |-> r[1].e * y.m])>>)
                        ELSE Undef)
             ELSE Undef
+
+(* pow with the special cases of ISO C99 F.9.4.4 (signed zeros, infinities, *)
+(* NaN), finite non-zero arguments by MPowFin                               *)
+YOddInt(t) == IsFinite(t) /\ (LET n == NormME(D(t).m, D(t).e) IN n.m # 0 /\ n.e = 0)
+DAbsV(a) == [m |-> Abs(a.m), e |-> a.e]
+MPow(s, t) ==
+    IF IsFinite(t) /\ D(t).m = 0 THEN Def(<<<<"n", 1>>>>)              \* pow(x, +-0) = 1, even for a NaN
+    ELSE IF s = <<"n", 1>> THEN Def(<<<<"n", 1>>>>)                    \* pow(+1, y) = 1, even for a NaN
+    ELSE IF s[1] = "nan" \/ t[1] = "nan" THEN Def(<<NaN>>)
+    ELSE IF IsFinite(s) /\ D(s).m = 0 THEN                            \* pow(+-0, y)
+         (IF SignNeg(t) THEN Def(<<Inf(IF YOddInt(t) /\ SignNeg(s) THEN -1 ELSE 1)>>)
+          ELSE Def(<<ZeroTok(YOddInt(t) /\ SignNeg(s))>>))
+    ELSE IF s[1] = "inf" THEN                                         \* pow(+-inf, y)
+         (IF SignNeg(t) THEN Def(<<ZeroTok(YOddInt(t) /\ SignNeg(s))>>)
+          ELSE Def(<<Inf(IF YOddInt(t) /\ SignNeg(s) THEN -1 ELSE 1)>>))
+    ELSE IF t[1] = "inf" THEN                                         \* pow(x, +-inf), x finite, not 0, not 1
+         (IF s = <<"n", -1>> THEN Def(<<<<"n", 1>>>>)
+          ELSE IF DLess([m |-> 1, e |-> 0], DAbsV(D(s))) = (t[2] = 1) THEN Def(<<Inf(1)>>) ELSE Def(<<PosZero>>))
+    ELSE MPowFin(s, t)
+
+(* the arithmetic operators of the language on doubles (IEEE 754; % as the  *)
+(* manual defines it: a - floor(a/b)*b), exact results only                 *)
+MNeg(t) == CASE t[1] = "nan" -> NaN
+             [] t[1] = "inf" -> Inf(-t[2])
+             [] IsZeroTok(t) -> ZeroTok(~SignNeg(t))
+             [] OTHER -> Tok(DNeg(D(t)))
+MAdd(s, t) ==
+    IF s[1] = "nan" \/ t[1] = "nan" THEN NaN
+    ELSE IF s[1] = "inf" THEN (IF t[1] = "inf" /\ t[2] # s[2] THEN NaN ELSE s)
+    ELSE IF t[1] = "inf" THEN t
+    ELSE TokS(DAdd(D(s), D(t)), IsZeroTok(s) /\ IsZeroTok(t) /\ SignNeg(s) /\ SignNeg(t))
+MSub(s, t) == MAdd(s, MNeg(t))
+MMul(s, t) ==
+    IF s[1] = "nan" \/ t[1] = "nan" THEN NaN
+    ELSE IF s[1] = "inf" \/ t[1] = "inf"
+         THEN (IF (IsFinite(s) /\ D(s).m = 0) \/ (IsFinite(t) /\ D(t).m = 0) THEN NaN
+               ELSE Inf(IF SignNeg(s) # SignNeg(t) THEN -1 ELSE 1))
+    ELSE TokS(DMul(D(s), D(t)), SignNeg(s) # SignNeg(t))
+(* the quotient when it is exact, Undef otherwise *)
+MDiv(s, t) ==
+    LET neg == SignNeg(s) # SignNeg(t) IN
+    IF s[1] = "nan" \/ t[1] = "nan" THEN Def(<<NaN>>)
+    ELSE IF s[1] = "inf" THEN (IF t[1] = "inf" THEN Def(<<NaN>>) ELSE Def(<<Inf(IF neg THEN -1 ELSE 1)>>))
+    ELSE IF t[1] = "inf" THEN Def(<<ZeroTok(neg)>>)
+    ELSE IF D(t).m = 0 THEN (IF D(s).m = 0 THEN Def(<<NaN>>) ELSE Def(<<Inf(IF neg THEN -1 ELSE 1)>>))
+    ELSE IF D(s).m = 0 THEN Def(<<ZeroTok(neg)>>)
+    ELSE LET a == NormME(D(s).m, D(s).e)
+             b == NormME(D(t).m, D(t).e)
+         IN IF a.m % Abs(b.m) = 0 THEN Def(<<Tok([m |-> (a.m \div Abs(b.m)) * Sgn(b.m), e |-> a.e - b.e])>>)
+            ELSE Undef
+(* a % b for finite a and finite non-zero b: the result has the sign of b;  *)
+(* a - floor(a/b)*b is +0 whenever it is zero                               *)
+MMod(s, t) ==
+    IF s[1] = "nan" \/ t[1] = "nan" \/ s[1] = "inf" THEN Def(<<NaN>>)
+    ELSE IF t[1] = "inf" THEN Undef
+    ELSE IF D(t).m = 0 THEN Def(<<NaN>>)
+    ELSE LET r == DFmod(D(s), D(t))
+         IN IF r.m = 0 THEN Def(<<PosZero>>)
+            ELSE IF (r.m < 0) # (D(t).m < 0) THEN Def(<<Tok(DAdd(r, D(t)))>>)
+            ELSE Def(<<Tok(r)>>)
 
 (* max / min over all arguments (no NaN arguments) *)
 RECURSIVE MFold(_, _, _)
